@@ -84,6 +84,10 @@ If --internal is specified, then internal nodes are renamed;
 		var setregex, setreplace bool
 		setregex = cmd.Flags().Changed("regexp")
 		setreplace = cmd.Flags().Changed("replace")
+		if renameRegex == "none" {
+			// "none" is the documented default: giving it explicitly means the same as leaving the option out
+			setregex = false
+		}
 
 		if !(renameTips || renameInternalNodes) {
 			err = errors.New("You should rename at least internal nodes (--internal) or tips (--tips)")
